@@ -460,6 +460,13 @@ func cmdCheck(args []string) int {
 				fnBad[fn] = true
 			}
 		}
+		// (a function under contract that was not even looked at for this property has no
+		// obligation of it at all, hence none that fails)
+		for _, q := range eng.cf.Order {
+			if c := eng.cf.Contracts[q]; c != nil && !c.Trusted && !c.Lemma && !c.Inline && eng.funcs[q] != nil {
+				fnAll[q] = true
+			}
+		}
 		for fn := range fnAll {
 			if !fnBad[fn] {
 				m := fn + ".all.complete"
@@ -578,7 +585,7 @@ func cmdCheck(args []string) int {
 		if len(bad) > 1 {
 			suffix = fmt.Sprintf(" (+%d more failing cases of this obligation)", len(bad)-1)
 		}
-		if !isLocked && ((shown.Kind == "safety" && locked[shown.Func+".safety.complete"]) || (shown.Kind != "census" && !shown.Cover && locked[shown.Func+".all.complete"])) {
+		if !isLocked && ((shown.Kind == "safety" && locked[shown.Func+".safety.complete"]) || (shown.Kind != "census" && shown.Kind != "engine" && !shown.Cover && locked[shown.Func+".all.complete"])) {
 			// every safety obligation of this function was discharged on the baseline: a new one
 			// that fails means the changed body can now panic where it could not before
 			sat := false
